@@ -3,6 +3,8 @@
 package main
 
 import (
+	"errors"
+	"net"
 	"context"
 	"fmt"
 	"os"
@@ -66,6 +68,42 @@ func scenarioStartup(c *vrun.Ctx) {
 					c.SetCase(desc)
 					c.Violation("C18/startup/accepted-config-panics-at-start/"+strings.ReplaceAll(fmt.Sprintf("dashboard_disabled=%v,api_disabled=%v", dash, api), " ", ""), fmt.Sprintf("the update {%s} was accepted and saved, but main.startWebServer panics under it at the next start: %v", desc, pan), nil)
 				}
+			}
+		}
+	}
+	// listen addresses: main hands them to net/http's ListenAndServe and panics when that fails. Whether an
+	// address can be listened on at all is decided by asking the real net package (port 0 / invalid forms
+	// only, so no fixed port is needed): an accepted address that net.Listen refuses as malformed is a
+	// configuration the proxy cannot run under.
+	addrs := []string{":0", "127.0.0.1:0", "localhost:0", "[::1]:0", "no port here", "localhost", "localhost:99999", "localhost:-1", "127.0.0.1:0x50", "[::1", "a:b:c", ":", "localhost:"}
+	for _, which := range []string{"proxy", "webserver"} {
+		for _, addr := range addrs {
+			c.Case()
+			var accepted bool
+			vsched.Run(vsched.Config{Horizon: 2000000}, func() {
+				os.MkdirAll("var", 0o755)
+				os.Remove("var/config.json")
+				cfg := config.NewDefault()
+				st, err := config.UpdatePartialFromConfig(cfg, map[string]any{which: map[string]any{"listen": addr}})
+				accepted = err == nil && st != config.UpdateStatusFailed
+			})
+			var lerr error
+			if l, err := net.Listen("tcp", addr); err != nil {
+				lerr = err
+			} else {
+				l.Close()
+			}
+			malformed := false
+			if lerr != nil {
+				var ae *net.AddrError
+				var pe *net.ParseError
+				var de *net.DNSError
+				malformed = errors.As(lerr, &ae) || errors.As(lerr, &pe) || errors.As(lerr, &de) || strings.Contains(lerr.Error(), "invalid port") || strings.Contains(lerr.Error(), "unknown port") || strings.Contains(lerr.Error(), "missing port")
+			}
+			c.Outcome(fmt.Sprintf("%s.listen=%q accepted=%v listenable=%v", which, addr, accepted, lerr == nil))
+			if accepted && malformed {
+				c.SetCase(which + ".listen=" + addr)
+				c.Violation("C18/startup/accepted-listen-address-cannot-be-listened-on/"+which, fmt.Sprintf("%s.listen=%q was accepted and saved, but listening on it fails (%v): main panics on that error at the next start", which, addr, lerr), nil)
 			}
 		}
 	}
